@@ -82,6 +82,13 @@ def match_known(known, v):
             continue
         if "input_equals" in m and v.get("input") != m["input_equals"]:
             continue
+        if "py" in m:
+            try:
+                from vlib import known_predicates
+                if not getattr(known_predicates, m["py"])(v):
+                    continue
+            except Exception:
+                continue
         if "observed_regex" in m and not re.search(m["observed_regex"], json.dumps(v.get("observed"), default=repr, ensure_ascii=True)):
             continue
         return e
